@@ -278,6 +278,17 @@ class C15(PropBase):
                     out.append(self.mk("long-line:bad-posting", simple(T, ["a 1 ; " + pad, "b 1 2 ; " + pad])))
                     out.append(self.mk("long-line:bad-meta", simple(T, ["a 1", "b"], meta=" # uuid: " + pad + "\n")))
                     out.append(self.mk("long-line:bad-sum", simple(T, ["a 1 ; " + pad, "b 1 ; " + pad], desc=" '" + pad)))
+        # --- audit mode with repeated uuids: a reported error whatever the multiplicities (one uuid many times, few uuids
+        #     several times, ten and more distinct duplicates: both branches of the message and their boundary)
+        def dup_journal(groups):
+            txs, day = [], 0
+            for gi, k in enumerate(groups):
+                for _ in range(k):
+                    day += 1
+                    txs.append("2024-01-%02dT00:00:%02dZ\n # uuid: 00000000-0000-4000-8000-%012d\n a 1\n b\n" % (1 + day % 28, day % 60, gi))
+            return "\n".join(txs)
+        for groups in ([2], [3], [11], [12], [3] * 5, [6, 6], [2] * 9, [2] * 10, [2] * 11, [10], [9, 2], [4, 4, 4], [2] * 9 + [3], [1] * 12):
+            out.append(self.mk("audit-dup:%s" % "x".join(str(g) for g in groups), dup_journal(groups), cfg={"audit": True, "hash": "SHA-256"}))
         # --- header features
         forbidden = list(")'([]{}<>") + ["\r", "\n"]
         for ch in forbidden + [chr(0xA0), "\t", chr(0x2003), ";", "#", "é"]:
@@ -474,6 +485,8 @@ class C15(PropBase):
             return None     # depth >= 5000: the model's account tree (lists of paths) is cubic; implementation and oracle only
         if case.get("walk"):
             return None     # the directory walk (walkdir) is not modelled: implementation and oracle only
+        if k.startswith("audit-dup:"):
+            return None     # the duplicate check belongs to the selection stage (C09's model); here: no panic, oracle only
         c = {k: v for k, v in case.items() if k not in ("kind",)}
         c["cfg"] = model_cfg(case.get("cfg", {}))
         c["tscfg"] = ts
@@ -535,6 +548,8 @@ class C15(PropBase):
         r = impl.get("r")
         if r in ("PANIC", "ABORT", "TIMEOUT"):
             return {"sig": "crash:" + r.lower() + self.crash_class(case), "what": "loading ended with %s instead of a result or an error" % r}
+        if r == "SETERR" and case.get("kind", "").startswith("audit-dup:"):
+            return None     # a reported error of the selection stage (duplicate uuids in audit mode)
         if r not in ("OK", "ERR"):
             return {"sig": "status:" + str(r), "what": "unexpected load status %s: %s" % (r, str(impl.get("msg"))[:200])}
         if case.get("expect_n") is not None:
